@@ -151,7 +151,9 @@ def gen_scenario(rng, tier, focus, knobs):
             'delay_max': rng.choice([0.0, 0.0, 0.02, 0.1]),
             'preempt': knobs.get('preempt', 0.0) if rng.random() < 0.7 else 0.0,
             'yield_prob': rng.choice([1.0, 1.0, 0.5]),
-            'bulk_max': rng.choice([1, 4, 64, 1024])}
+            'bulk_max': rng.choice([1, 4, 64, 1024]),
+            'stall': rng.choice([0.0, 0.0, 0.01, 0.03])
+            if knobs.get('stall', True) else 0.0}
 
 
 # ------------------------------------------------------------------------------
@@ -464,6 +466,7 @@ def run(seed, sc, trace=None, tier='quick'):
                sc['preempt'])
     res = C.run_world(seed, build, trace=trace, tmp=True,
                       yield_prob=sc.get('yield_prob', 1.0), preempt=pre,
+                      stall_prob=sc.get('stall', 0.0),
                       max_steps=150000 if tier == 'quick' else 600000)
     os.environ.pop('SLURM_NODELIST', None)
     os.environ.pop('SLURM_CPUS_ON_NODE', None)
@@ -529,7 +532,7 @@ def shrink(sc):
     for j in range(len(ops)):
         c = dict(sc); c['ops'] = ops[:j] + ops[j + 1:]; out.append(c)
     for k, val in (('delay_max', 0.0), ('preempt', 0.0), ('yield_prob', 1.0),
-                   ('bulk_max', 1024)):
+                   ('bulk_max', 1024), ('stall', 0.0)):
         if sc.get(k) != val:
             c = dict(sc); c[k] = val; out.append(c)
     lay = sc['layout']
@@ -729,8 +732,18 @@ def oracles(sim, sc, st):
         for key in sorted(mine_g):
             if gpus[key] > 1.0 + 1e-9 and not (
                     tainted & set(gpus[('who',) + key])):
-                v(sim, 'C01', 'gpu_over',
-                  site_for(gpus[('who',) + key], uid), uid,
+                site = site_for(gpus[('who',) + key], uid)
+                if site == 'sched:holder_preplaced':
+                    # the holder placed by the application only has a share
+                    # of this GPU (known finding: shares are not tracked)
+                    for hu, hs in allh.items():
+                        if hu == uid or not (descr.get(hu) or {}).get('slots'):
+                            continue
+                        for s_ in hs:
+                            for gi, occ in s_['gpus']:
+                                if (s_['node_index'], gi) == key and occ < 1:
+                                    site = 'sched:holder_preplaced_gpu_share'
+                v(sim, 'C01', 'gpu_over', site, uid,
                   {'gpu': key, 'sum': gpus[key],
                    'holders': gpus[('who',) + key]}, seq)
                 break
@@ -1176,6 +1189,15 @@ def oracle_c08(sim, sc, st):
                     v(sim, 'C08', 'bystander_state', site, uid,
                       {'outcomes': outs, 'want': want}, len(sim.events))
         else:
+            if uid in L['grants'] and L['releases'].get(uid, 0) != 1 and \
+                    sc['layout']['spawner'] != 'NOOP':
+                v(sim, 'C08', 'named_freed_not_once', site, uid,
+                  {'releases': L['releases'].get(uid, 0),
+                   'outcomes': outs}, len(sim.events))
+            if len([o for o in outs if o in FINAL]) > 1 and \
+                    len(set(outs)) > 1:
+                v(sim, 'C08', 'named_two_outcomes', site, uid,
+                  {'outcomes': outs}, len(sim.events))
             if not outs:
                 if uid in waitpool_uids(st.get('child')):
                     v(sim, 'C08', 'waitpool_residue', 'scheduler', uid, {},
